@@ -207,13 +207,31 @@ class Checker:
         return True
 
 
-def compare_pair(ck, base, other, kind, desc, a=1.0, perm=None, Y=None, Y2=None, r=None):
+def compare_pair(ck, base, other, kind, desc, a=1.0, perm=None, Y=None, Y2=None, r=None, heuristics_only=False):
     """base: Fit on (X, U); other: Fit on the transformed data.  kind in {'isometry', 'permutation', 'scale', 'time'}"""
     with np.errstate(over="ignore", invalid="ignore", divide="ignore"):     # infinite bounds (singular matrices) compare as "no bound"
-        return _compare_pair(ck, base, other, kind, desc, a, perm, Y, Y2, r)
+        return _compare_pair(ck, base, other, kind, desc, a, perm, Y, Y2, r, heuristics_only)
 
 
-def _compare_pair(ck, base, other, kind, desc, a, perm, Y, Y2, r):
+class Prep:
+    """an estimator after prepare_inference only (no optimisation): the data-driven heuristics nn_distances, d, ls, mu"""
+
+    def __init__(self, name, gp, kernel, X, lm, extra):
+        self.name, self.gp, self.kernel = name, gp, kernel
+        self.time, self.dim = False, False
+        est = make_est(name, gp, kernel, lm, extra)
+        est.prepare_inference(X)
+        self.est = est
+        self.X = np.asarray(est.x, dtype=float)
+        self.U_ = self.X
+        self.nn = np.asarray(est.nn_distances, dtype=float)
+        self.ls = float(np.asarray(est.ls))
+        self.ls_time = None
+        self.d = np.asarray(est.d, dtype=float)
+        self.mu = float(est.mu)
+
+
+def _compare_pair(ck, base, other, kind, desc, a, perm, Y, Y2, r, heuristics_only=False):
     key = "C08|%s|%s|%s" % (base.name, base.gp, kind)
     time_, dim = base.time, base.dim
     X, X2, Uu, U2 = base.X, other.X, base.U_, other.U_
@@ -242,6 +260,8 @@ def _compare_pair(ck, base, other, kind, desc, a, perm, Y, Y2, r):
     else:
         mu_expected = base.mu - dmax * loga
         ck.cmp("mu", other.mu, mu_expected, tol_mu, key, desc)
+    if heuristics_only:
+        return
     # ---- Gram matrices
     ls2 = other.ls
     K2 = other.gram(X2, U2)
@@ -406,9 +426,16 @@ def run(ctx):
         X = S
         extra = {}
         if time_:
+            # time points of unequal sizes, cells not grouped by time; every other combination with the per-time-point
+            # sampling normalisation switched on (its factors differ between time points only when the sizes do)
             nt = 4
-            X = np.hstack([S, np.repeat(np.arange(nt, dtype=float), n // nt)[:, None]])
+            q4 = n // nt
+            sizes = [q4 - 2, q4 + 3, q4 - 1, n - 3 * q4]
+            tt = np.repeat(np.arange(nt, dtype=float), sizes)
+            X = np.hstack([S, tt[:, None]])[r.permutation(n)]
             extra = dict(ls_time=1.5)
+            if ci % 2 == 1:
+                extra["normalize_per_time_point"] = True
         lm = None
         if gp in ("sparse_cholesky", "fixed"):
             m = max(4, n // 3) if gp == "sparse_cholesky" else n // 2
@@ -466,7 +493,7 @@ def run(ctx):
             Y3[:, -1] = at * Yq[:, -1] + bt
             desc = dict(desc0, transformation="time-affine", a=at, b=bt)
             try:
-                other = Fit(ename, gp, kernel, X3, lm3, dict(ls_time=1.5 * at))
+                other = Fit(ename, gp, kernel, X3, lm3, dict(extra, ls_time=1.5 * at))
                 fits += 1
                 key = "C08|%s|%s|time" % (ename, gp)
                 e2 = 0.0
@@ -496,6 +523,26 @@ def run(ctx):
                     ck.cmp("time_derivative", td2, td1 / at, (amp + 1e-9) * 2 / min(1.5, 1.5 * at) / min(at, 1.0) + 1e-9, key, desc, tight=False)
             except Exception as e:      # noqa
                 ctx.violation("C08|%s|%s|time|fit" % (ename, gp), "time-affine pair failed", dict(desc, error=repr(e)[:300]))
+    # ---- near-duplicate (but distinct) cells at small scales: the heuristics must scale exactly, i.e. no absolute
+    #      length threshold may enter (twin cells 2e-6 .. 6e-6 apart, a down to 1e-3: distances of a few 1e-9)
+    try:
+        r = np.random.default_rng(rng.randrange(2 ** 31))
+        n, sd = 22, 2
+        Xn = r.normal(size=(n, sd))
+        for t_ in range(3):
+            Xn[n - 1 - t_] = Xn[t_] + r.choice([-1.0, 1.0], size=sd) * r.uniform(2e-6, 6e-6, size=sd) / np.sqrt(sd)
+        basep = Prep("DensityEstimator", "full", "Matern52", Xn, None, {})
+        dist["DensityEstimator|near-duplicate heuristics"] = 0
+        for a in ([1e-3, 1e-2, 1e2] if ctx.thorough else [1e-3, 1e2]):
+            otherp = Prep("DensityEstimator", "full", "Matern52", a * Xn, None, {})
+            desc = dict(estimator="DensityEstimator", gp_type="full", kernel="Matern52", n=n, state_dims=sd, x=Xn.tolist(), landmarks=None,
+                        verif_seed=ctx.seed, transformation="scale", a=a, stage="prepare_inference only",
+                        data="standard normal cells, three of them with a twin 2e-6..6e-6 away")
+            compare_pair(ck, basep, otherp, "scale", desc, a=a, heuristics_only=True)
+            dist["DensityEstimator|near-duplicate heuristics"] += 1
+    except Exception as e:      # noqa
+        ctx.violation("C08|DensityEstimator|full|scale|near-duplicate|exception", "prepare_inference on near-duplicate cells failed",
+                      dict(error=repr(e)[:300]))
     timing["fits+comparisons"] = round(time.time() - t0, 1)
     ctx.cov["timing_s"] = timing
     ctx.cov["evaluations"] = sum(ck.counts.values())
